@@ -2404,7 +2404,23 @@ def _m_iter(interp, v, *a):
     return list(interp.iterate(v))
 
 
+def _m_product(interp, *its, **k):
+    """itertools.product materialises every argument before yielding: a list of tuples is the same sequence"""
+    import itertools as _it
+    if k:
+        raise Undecided("itertools.product(repeat=...)")
+    return list(_it.product(*[list(interp.iterate(x)) for x in its]))
+
+
+def _m_zip_longest(interp, *its, fillvalue=None):
+    import itertools as _it
+    return list(_it.zip_longest(*[list(interp.iterate(x)) for x in its], fillvalue=fillvalue))
+
+
+import itertools as _itertools
+
 DEFAULT_MODELS = {
+    _itertools.product: _m_product,
     iter: _m_iter,
     object.__setattr__: _m_object_setattr,
     _math.copysign: _m_copysign,
